@@ -31,7 +31,7 @@ STD_MODELS = [
     "<Range<u64> as Iterator>::rev", "<Rev<Range<u64>> as IntoIterator>::into_iter",
     "<Rev<Range<u64>> as Iterator>::next", "core::num::<impl u64>::leading_zeros",
     "core::slice::<impl [u64]>::is_empty", "<[u64; N] as Index<Range<usize>>>::index",
-    "Arguments::from_str", "panic_fmt", "<u32 as Into<u64>>::into",
+    "Arguments::from_str", "panic_fmt", "<u32 as Into<u64>>::into", "cmp::min/max::<uN>",
 ]
 
 
@@ -549,6 +549,13 @@ class Executor:
             if a.size() > w:
                 raise Unsupported("narrowing Into")
             return (z3.ZeroExt(w - a.size(), a) if a.size() < w else a), F, F
+        m = re.match(r"cmp::(min|max)::<(u8|u16|u32|u64|usize)>", c)
+        if m:
+            note("cmp::min/max::<uN>")
+            a, b = argv[0], argv[1]
+            if m.group(1) == "min":
+                return z3.If(z3.ULE(a, b), a, b), F, F
+            return z3.If(z3.UGE(a, b), a, b), F, F
         m = re.match(r"num::<impl (u64|u32|usize)>::leading_zeros", c)
         if m:
             note("leading_zeros")
